@@ -79,7 +79,11 @@ func (g *tplGen) expr(depth int) string {
 		use := hx.Pick(g.r, []string{"text_length(%s)", "text(%s)", "json(%s)", "count(%s)", "format(%s)", "%s = 1", "unique(array(%s, %s))", "is_error(%s)", "%s", "contains(array(%s), 1)", "sort(array(%s, %s))"})
 		if g.r.Intn(4) == 0 {
 			// applied 4^a * 16^b times instead, by Church numerals, which is how a value gets deep
-			body = hx.Pick(g.r, []string{"array(x)", "object(\"a\", x)", "array(1, x)", "array(x, 1)", "object(\"k\", 1, \"a\", x)", "x & \"a\"", "x + 1", body})
+			body = hx.Pick(g.r, []string{"array(x)", "object(\"a\", x)", "array(1, x)", "array(x, 1)", "object(\"k\", 1, \"a\", x)", "x & \"a\"", "x + 1", body,
+				// calls that are expensive for what they are given and give back, made over and over
+				"regex_match(\"aaaaaaaaaab\", \"(a?){1000}(a?){1000}b\") & x", "has_pattern(repeat(\"a\", 5000), \"(a?){50}z\")", "x & text_length(repeat(\"ab\", 40000) & \"a\")",
+				"json(array(x, x))", "format_number(x + 1.5, 2)", "has_any_word(repeat(\"a \", 2000), \"b c\")", "count(split(repeat(\"a \", 20000), \" \")) + x", "is_error(json(" + strings.Repeat("array(", 30) + "x" + strings.Repeat(")", 30) + "))",
+				"text_length(x) ^ 0.5", "parse_datetime(\"2024-01-01 10:00\", \"YYYY-MM-DD tt:mm\", \"Africa/Kigali\")", "has_phone(\"+250788123123\", \"RW\")", "x * 1.0000001", "x / 1.0000001"})
 			iter := hx.Pick(g.r, []string{"q(q(q(t(t)(w))))", "q(q(t(t)(w)))", "q(q(q(w)))", "q(t(t)(w))", "t(t)(q(q(w)))", "q(q(q(q(w))))"})
 			return "((t, w) => ((q) => " + strings.ReplaceAll(use, "%s", iter+"("+seed+")") + ")(t(t)(t)))((f) => (x) => f(f(x)), (x) => " + body + ")"
 		}
